@@ -256,16 +256,36 @@ func (e *Env) processFailures(s *Spec, agg *Agg, known *Known) (*Outcome, error)
 	if s.WorkerEnv != nil {
 		env = s.WorkerEnv(e)
 	}
-	sort.SliceStable(agg.Fails, func(i, j int) bool { return agg.Fails[i].Run < agg.Fails[j].Run })
+	// failures with an exact replay first; a native disagreement (statistical replay) only counts if
+	// nothing exact shows the same component
+	sort.SliceStable(agg.Fails, func(i, j int) bool {
+		ni, nj := agg.Fails[i].Class == "native-disagreement", agg.Fails[j].Class == "native-disagreement"
+		if ni != nj {
+			return nj
+		}
+		return agg.Fails[i].Run < agg.Fails[j].Run
+	})
+	exactSites := map[string]bool{}
+	for _, f := range agg.Fails {
+		if f.Class != "native-disagreement" {
+			exactSites[f.Site] = true
+		}
+	}
 	n := 0
 	for _, f := range agg.Fails {
 		if seen[f.Key()] {
 			continue
 		}
 		seen[f.Key()] = true
+		if f.Class == "native-disagreement" && len(exactSites) > 0 {
+			continue // already shown, exactly replayable, through the seam
+		}
 		n++
 		doc := &ReplayDoc{Property: s.ID, Class: f.Class, Site: f.Site, Detail: f.Detail, Tree: e.TreeHash, Seed: e.Seed, Run: f.Run,
 			Variant: f.Variant, ReplayMode: "exact", Case: f.Replay}
+		if f.Class == "native-disagreement" {
+			doc.ReplayMode = "native-repetition" // re-runs many native compilations: reproduces with high probability only
+		}
 		if len(f.Replay) == 0 {
 			return nil, troublef("failure without a replay case: %s %s", f.Key(), f.Detail)
 		}
